@@ -18,7 +18,7 @@ func TestMain(m *testing.M) {
 			"(Modification, Deletion, data-plane report) addressed to SEIDs of every class: 0, live, released, table length+1, +1000, 2^63-1, 2^63, 2^63+1, 2^64-1, random 64-bit; reference model of the SEID space; "+
 			"oracle: issued SEID is non-zero and not live; live SEID -> accepted with that session's CP SEID and calls tagged with exactly that UP SEID; any other SEID -> cause 65, header SEID 0, no data-plane call, server snapshot unchanged; "+
 			"a re-issued SEID shows nothing of its previous owner (rules, queues, UR-SEQN). non-trivial = history re-issued >= 1 released SEID and probed >= 3 SEID classes; distinct by history",
-		"every session gets a distinct CP SEID so that identity is observable in response headers",
+		"three in four histories give every session a distinct CP SEID so that identity is observable in response headers; the rest share CP SEIDs across peers",
 		"model data plane (kernel semantics) instead of gtp5g")
 	vcore.Main(m)
 }
@@ -79,9 +79,16 @@ func TestC04(t *testing.T) {
 	}
 	g := cfg()
 	vcore.Check(t, vcore.N(1500, 4000), func(rt *rapid.T) {
-		c := sessmodel.Case{Ops: sessmodel.Gen(rt, g)}
+		gc := g
+		// one history in four lets the peers choose equal CP SEIDs, so that a SEID-0 answer
+		// can only be attributed by peer address
+		gc.SharedCP = rapid.IntRange(0, 3).Draw(rt, "sharedcp") == 0
+		c := sessmodel.Case{Ops: sessmodel.Gen(rt, gc)}
 		r := sessmodel.Run(c, or)
 		account(c, r)
+		if gc.SharedCP {
+			vcore.E.Class("shared_cp_seids")
+		}
 		report(rt, c, r)
 	})
 }
